@@ -48,6 +48,37 @@ MatchArr(ps, ds, bs) ==
   ELSE LET pe == CHOOSE x \in ps : TRUE
        IN UNION { MatchArr(ps \ {pe}, ds \ {de}, UNION {MatchB(pe, de, b) : b \in bs}) : de \in ds }
 
+-----------------------------------------------------------------------------
+(* Named deviation D_REBIND_PARTIAL (known finding, C05).  The matcher rulio *)
+(* delegates to (Comcast/sheens) checks a second occurrence of a variable    *)
+(* by matching the value bound so far, AS A PATTERN, against the data, i.e.  *)
+(* partially; which occurrence is met first depends on Go map iteration.     *)
+(* DevMatchB gives every binding some visiting order can produce.            *)
+
+RECURSIVE DevMatchB(_, _, _), DevMatchMap(_, _, _, _), DevMatchArr(_, _, _)
+
+DevMatchB(p, d, b) ==
+  CASE p.k = "v" -> IF p.a = "?" THEN {b}
+                    ELSE IF p.a \in DOMAIN b
+                         THEN (IF VarsOf(b[p.a]) = {} /\ MatchB(b[p.a], d, <<>>) # {} THEN {b} ELSE {})
+                         ELSE {Ext(b, p.a, d)}
+    [] p.k = "m" -> IF d.k # "m" THEN {}
+                    ELSE IF DOMAIN p.m = {} THEN {b}
+                    ELSE IF QKeys(p) # {} THEN MatchB(p, d, b)
+                    ELSE IF ~(DOMAIN p.m \subseteq DOMAIN d.m) THEN {}
+                    ELSE DevMatchMap(DOMAIN p.m, p, d, {b})
+    [] p.k = "l" -> IF d.k # "l" THEN {} ELSE DevMatchArr(p.l, d.l, {b})
+    [] OTHER     -> IF p = d THEN {b} ELSE {}
+
+\* every order of visiting the keys
+DevMatchMap(ks, p, d, bs) ==
+  IF ks = {} \/ bs = {} THEN bs
+  ELSE UNION { DevMatchMap(ks \ {key}, p, d, UNION {DevMatchB(p.m[key], d.m[key], b) : b \in bs}) : key \in ks }
+
+DevMatchArr(ps, ds, bs) ==
+  IF ps = {} \/ bs = {} THEN bs
+  ELSE UNION { UNION { DevMatchArr(ps \ {pe}, ds \ {de}, UNION {DevMatchB(pe, de, b) : b \in bs}) : de \in ds } : pe \in ps }
+
 Match(p, d) == MatchB(p, d, <<>>)
 Matches(p, d) == Match(p, d) # {}
 =============================================================================
